@@ -24,10 +24,18 @@ RULE = ('cases (in-kernel correspondence; quick ~10 k, thorough ~46 k): for each
         'ObjectIdentifier.set_tuple/set_long/get_long, BitString.__setitem__, encode again), observation and state compared after every call '
         '(~600 / ~2200 histories).  non-trivial = the encoding has >= 1 content octet or the value must be refused, or a decode that yields a value / is '
         'refused after looking at the data, or a history with >= 1 state change followed by an encode; distinct by (operation, class, input).  '
+        'Round 4 additions (both tiers): 20 special code points (U+FEFF, U+FFFE, NUL, U+D7FF/U+E000, U+10FFFF, U+FFFF, combining mark, blanks, CR LF, '
+        'U+2028, U+200B ...) alone / doubled / first / middle / last in text, as charset 0/3/4 octets and as text-through-charset-0 cases; every '
+        'BitString subclass of the library and a user subclass (bitLen 5) with lengths {0, 1, bitLen-1, bitLen, bitLen+1, bitLen+9, random}; two '
+        'ObjectIdentifier classes with different objectTypeClass (stock, vendor types 128/129/640/1023) decoded interleaved in both orders; 400 / '
+        '2000 earlier decode/wire/table cases evaluated a second time at the end of the run (no dependence on process history).  '
         'direct predicate (implementation only; quick ~28 k, thorough ~720 k evaluations): every name and number of every enumeration table, every '
         'bit-string length 0..64, the full 6^4 date/time grid, every context number 0..254 for 34 boundary values covering every class, integer grid + '
         '400 / 20 000 random integers, 2 000 / 100 000 object identifiers, float pools, random strings, and 1 840 / 40 000 public-API life-cycle '
-        'histories; each value in application mode and 1-5 context numbers.')
+        'histories; each value in application mode and 1-5 context numbers; the special-code-point corpus through the constructor and through decode '
+        'in charsets 0/3/4/5; every BitString subclass + a user subclass x every length 0..bitLen+9 x {zeros, ones, random}; sibling-class scenarios '
+        '(stock / vendor ObjectIdentifier in both orders, PropertyIdentifier / vendor subclass, neighbouring enumeration classes sharing numbers); '
+        'a second pass over ~2500 / 20 000 of the earlier values at the end of the run.')
 TRUSTED = ['model coq/theories/Prim.v written by hand after primitivedata.py Atomic classes and Tag.app_to_context/context_to_app; tie = correspondence',
            'gen/Enums.v: enumeration / bit-string / limit tables read from the imported classes by translator/enums.py',
            'round32/widen32 model C float<->double conversion as done by struct.pack/unpack(">f") on this platform (NaN quietening included); tied by correspondence on bit patterns',
@@ -82,12 +90,37 @@ def classes():
         def ident(c, pre):
             return '%s_%s_%s' % (pre, c.__module__.split('.', 1)[1].replace('.', '_'), c.__name__)
         key = lambda c: (c.__module__, c.__name__)
+        lib = lambda c: c.__module__.startswith('bacpypes.')        # the harness's own synthetic subclasses are not tables of the library
         _classes = {
-            'enum': {ident(c, 'E'): c for c in sorted(set(subs(p.Enumerated)), key=key)},
-            'bits': {ident(c, 'B'): c for c in sorted(set(subs(p.BitString)), key=key)},
-            'unsigned': {'%s.%s' % key(c): c for c in sorted(set(subs(p.Unsigned)), key=key)},
+            'enum': {ident(c, 'E'): c for c in sorted(set(filter(lib, subs(p.Enumerated))), key=key)},
+            'bits': {ident(c, 'B'): c for c in sorted(set(filter(lib, subs(p.BitString))), key=key)},
+            'unsigned': {'%s.%s' % key(c): c for c in sorted(set(filter(lib, subs(p.Unsigned))), key=key)},
         }
     return _classes
+
+
+# user-style subclasses through the documented extension hooks (bitLen/bitNames, vendor object types, vendor properties)
+VendorBits = VendorObjectType = VendorObjectIdentifier = VendorProperty = None
+VENDOR_TYPES = [('vendorMeter', 128), ('vendorPump', 129), ('vendorGateway', 640), ('vendorLast', 1023)]
+
+
+def synthetic():
+    global VendorBits, VendorObjectType, VendorObjectIdentifier, VendorProperty
+    if VendorBits is None:
+        classes()                               # library tables are enumerated before the synthetic subclasses exist
+        p = P()
+        import bacpypes.basetypes as bt
+        VendorBits = type('VendorBits', (p.BitString,), {'bitLen': 5, 'bitNames': {'alpha': 0, 'beta': 1, 'gamma': 4}, '__module__': __name__})
+        VendorObjectType = type('VendorObjectType', (p.ObjectType,), {'enumerations': dict(VENDOR_TYPES), '__module__': __name__})
+        p.expand_enumerations(VendorObjectType)
+        VendorObjectIdentifier = type('VendorObjectIdentifier', (p.ObjectIdentifier,), {'objectTypeClass': VendorObjectType, '__module__': __name__})
+        VendorProperty = type('VendorProperty', (bt.PropertyIdentifier,), {'enumerations': {'vendorSetpoint': 512, 'vendorMode': 4194303}, '__module__': __name__})
+    return VendorBits, VendorObjectType, VendorObjectIdentifier, VendorProperty
+
+
+def vendor_table_coq():
+    """the vendor object-type table as expand_enumerations builds it: the subclass's entries, then the inherited ones"""
+    return '([%s] ++ E_primitivedata_ObjectType)%%list' % '; '.join('("%s"%%string, %d%%N)' % (n, v) for n, v in VENDOR_TYPES)
 
 
 def klass_of(spec):
@@ -98,7 +131,11 @@ def klass_of(spec):
     if k == 'enum':
         return p.Enumerated if spec[1] is None else classes()['enum'][spec[1]]
     if k == 'bits':
+        if len(spec) > 2 and spec[2] == 'B_verif_VendorBits':
+            return synthetic()[0]
         return p.BitString if (len(spec) < 3 or spec[2] is None) else classes()['bits'][spec[2]]
+    if k == 'objid' and len(spec) > 3 and spec[3] == 'vendor':
+        return synthetic()[2]
     return {'null': p.Null, 'bool': p.Boolean, 'integer': p.Integer, 'real': p.Real, 'double': p.Double,
             'octets': p.OctetString, 'chars': p.CharacterString, 'date': p.Date, 'time': p.Time,
             'objid': p.ObjectIdentifier}[k]
@@ -108,7 +145,7 @@ def table_of(spec):
     if spec[0] == 'enum':
         return spec[1] if spec[1] is not None else '[]'
     if spec[0] == 'objid':
-        return 'objid_type_table'
+        return vendor_table_coq() if (len(spec) > 3 and spec[3] == 'vendor') else 'objid_type_table'
     return '[]'
 
 
@@ -330,23 +367,32 @@ def kspec_of(spec):
         return (k, spec[1])
     if k == 'bits':
         return (k, None, spec[2] if len(spec) > 2 else None)
+    if k == 'objid' and len(spec) > 3:
+        return (k, None, None, spec[3])
     return (k,)
 
 
 def case_dec(kspec, tag, kind='dec'):
     exp = impl_dec(kspec, tag)
-    return Case('%s-%s' % (kind, kspec[0]), 'canon_res canon_prim (dec_app %s %d%%N %s)' % (table_of(kspec + (None, None)), KNUM[kspec[0]], coq_tag(tag)),
+    again = lambda: case_dec(kspec, tag, kind)
+    return _with_again(again, Case('%s-%s' % (kind, kspec[0]), 'canon_res canon_prim (dec_app %s %d%%N %s)' % (table_of(kspec + (None, None)), KNUM[kspec[0]], coq_tag(tag)),
                 exp, key=('dec', repr(kspec), repr(tag)), nontrivial=True,
-                desc={'op': 'dec', 'class': list(kspec), 'tag': [tag[0], tag[1], tag[2], bytes(tag[3]).hex()]})
+                desc={'op': 'dec', 'class': list(kspec), 'tag': [tag[0], tag[1], tag[2], bytes(tag[3]).hex()]}))
+
+
+def _with_again(again, case):
+    case.desc['_again'] = again
+    return case
 
 
 def case_wire(kspec, octets, ctx, kind='wire'):
     exp = impl_wire(kspec, octets, ctx)
     fn = 'dec_octets_ctx' if ctx else 'dec_octets_app'
-    return Case('%s-%s-%s' % (kind, 'ctx' if ctx else 'app', kspec[0]),
+    again = lambda: case_wire(kspec, octets, ctx, kind)
+    return _with_again(again, Case('%s-%s-%s' % (kind, 'ctx' if ctx else 'app', kspec[0]),
                 'canon_res canon_prim_rest (%s %s %d%%N %s)' % (fn, table_of(kspec + (None, None)), KNUM[kspec[0]], nlist(octets)),
                 exp, key=('wire', ctx, repr(kspec), bytes(octets)), nontrivial=len(octets) >= 1,
-                desc={'op': 'wire', 'ctx': bool(ctx), 'class': list(kspec), 'octets': bytes(octets).hex()})
+                desc={'op': 'wire', 'ctx': bool(ctx), 'class': list(kspec), 'octets': bytes(octets).hex()}))
 
 
 def case_a2c(c, tag):
@@ -645,6 +691,91 @@ def char_pool(rng):
     return out
 
 
+# code points that codecs, terminals and "helpful" normalisation treat specially
+SPECIAL_CP = ['\ufeff', '\ufffe', '\x00', '\ud7ff', '\ue000', '\U0010ffff', '\u0301', ' ', '\t', '\r\n', '\n', '\ufffd', '\x85', '\u2028',
+              '\u200b', '\xa0', '\x7f', '\U00010000', '\uffff', '\xff']
+
+
+def special_texts():
+    """each special code point alone, doubled, and at the first / middle / last position of ordinary text"""
+    out = []
+    for cp in SPECIAL_CP:
+        out += [cp, cp + cp, cp + 'ab', 'a' + cp + 'b', 'ab' + cp, cp + 'ab' + cp, ' ' + cp]
+    out += ['\ufeff\ufffe', 'e\u0301\u0301', ' lead', 'trail ', '\r\nline\r\n', 'a\x00b\x00']
+    return out
+
+
+def case_text(t):
+    """charset 0: the text a fresh object reports for these octets, written back as UTF-8, is the octets (nothing stripped)"""
+    data = b'\x00' + t.encode('utf-8')
+    tag = (0, 7, len(data), data)
+    exp = canon_call(lambda: P().CharacterString(mk_tag(*tag)).value.encode('utf-8'), list)
+    return Case('text-utf8', 'canon_res zs (do v <- dec_app [] 7%%N %s; text_utf8_of v)' % coq_tag(tag), exp, key=('text', t),
+                desc={'op': 'text', 'utf8': t.encode('utf-8').hex()})
+
+
+def wave4_cases(rng, tier):
+    """(1) special code points through every charset; (2) BitString subclasses (library + a user subclass) with values shorter and
+    longer than bitLen; (3) two ObjectIdentifier classes with different objectTypeClass interleaved in both orders; (4) a slice of
+    the decode cases evaluated a second time, after everything else has run in this process"""
+    out = []
+    for t in special_texts():
+        out.append(case_text(t))
+    for t in special_texts():
+        if len(t) > 3 and not t.startswith(('\ufeff', '\ufffe', '\x00', ' ', '\r')):
+            continue
+        for cs, codec in ((0, 'utf-8'), (3, 'utf_32be'), (4, 'utf_16be')):
+            spec = ('chars', cs, t.encode(codec))
+            c = case_oct(spec, rng.choice([None, 1, 15]))
+            out.append(c)
+            if c.expected[0] == 0:
+                out.append(case_wire(('chars',), bytes(c.expected[1:]), c.kind.startswith('oct-ctx')))
+    bits = dict(classes()['bits'])
+    synthetic()
+    bits['B_verif_VendorBits'] = VendorBits
+    for ident, cls in bits.items():
+        lens = sorted(set([0, 1, cls.bitLen - 1, cls.bitLen, cls.bitLen + 1, cls.bitLen + 9, rng.randrange(cls.bitLen + 1)]))
+        for n in lens:
+            spec = ('bits', [rng.randrange(2) for _ in range(n)], ident)
+            ctx = rng.choice([None, 2, 16])
+            c = case_oct(spec, ctx)
+            out.append(c)
+            out.append(case_wire(('bits', None, ident), bytes(c.expected[1:]), ctx is not None, 'wire-subclass'))
+    # the stock class sees a vendor type number first, then the vendor class; and the other way round for another number
+    def both(spec, tag):
+        c = case_oct(spec, None)
+        out.append(c)
+        out.append(case_wire(kspec_of(spec), bytes(c.expected[1:]), False, tag))
+    both(('objid', 128, 1), 'wire-sibling')
+    both(('objid', 'vendorMeter', 2, 'vendor'), 'wire-sibling')
+    both(('objid', 'vendorPump', 3, 'vendor'), 'wire-sibling')
+    both(('objid', 129, 4), 'wire-sibling')
+    for t, i in [(640, 5), ('vendorGateway', 6), (1023, 7), ('vendorLast', 8), ('device', 9), (8, 10), (127, 11), (130, 12)]:
+        both(('objid', t, i, 'vendor'), 'wire-sibling')
+        if not (isinstance(t, str) and t.startswith('vendor')):
+            both(('objid', t, i), 'wire-sibling')
+    return out
+
+
+def second_pass(cases_so_far, rng, n):
+    """the same decode / wire / history cases again, at the end of the run: the implementation's answer must not depend on what the
+    process has done in between (class-level caches, shared tables)"""
+    pool = [c for c in cases_so_far if c.kind.split('-')[0] in ('wire', 'dec', 'history', 'table')]
+    out = []
+    for c in rng.sample(pool, min(n, len(pool))):
+        d = c.desc
+        again = None
+        if d.get('op') == 'table':
+            again = case_table(d['class'], classes()['enum'][d['class']])
+        elif d.get('op') in ('wire', 'dec') and '_again' in d:
+            again = d['_again']()
+        if again is not None:
+            again.kind = 'again-' + again.kind
+            again.key = ('again',) + tuple(again.key if isinstance(again.key, tuple) else (again.key,))
+            out.append(again)
+    return out
+
+
 def bit_pool(rng, maxlen=64):
     out = []
     for n in range(0, maxlen + 1):
@@ -866,6 +997,11 @@ def cases(rng, tier):
         out.append(case_a2c(rng.choice(ctxs), tag))
         out.append(case_c2a(rng.choice([0, 1, 1, 2, 7, 12]), tag))
     out += history_cases(rng, tier)
+    out += wave4_cases(rng, tier)
+    out += second_pass(out, rng, 400 if quick else 2000)
+    for c in out:
+        if isinstance(c.desc, dict):
+            c.desc.pop('_again', None)          # closures do not belong in evidence / replays
     return out
 
 
@@ -1088,15 +1224,30 @@ def direct(rng, tier, focus=()):
     def ctxpick(k=2):
         return sorted(set(rng.sample(allctx, k if quick else 4) + [rng.choice(CTX_QUICK)]))
 
-    def run(cls, kind, arg, ctxs=None, tbl=None):
+    calls = []                                  # everything that was checked, for the second pass at the end
+
+    def run(cls, kind, arg, ctxs=None, tbl=None, record=True):
         nonlocal n
         n += 1
         f, enc = check_value(cls, kind, arg, ctxpick() if ctxs is None else ctxs, tbl)
+        if record:
+            calls.append((cls, kind, arg, tbl))
         if enc:
             nontriv.add((cls.__name__, kind, repr(arg)[:80]))
         if f:
             f['replay_arg'] = replay_arg(arg)
             failures.append(f)
+        return f
+
+    def scenario(name, steps):
+        """values of several classes checked in a fixed order in this one process; a failure carries the steps up to it"""
+        for k, (cls, kind, arg, tbl) in enumerate(steps):
+            f = run(cls, kind, arg, [rng.choice(CTX_QUICK)], tbl, record=False)
+            if f:
+                f['scenario_name'] = name
+                f['scenario'] = [{'class': '%s.%s' % (c.__module__, c.__name__), 'prim': kd, 'replay_arg': replay_arg(a)} for c, kd, a, _ in steps[:k + 1]]
+                return f
+        return None
 
     # every context number for the two special layouts and one ordinary one
     for arg, kind, cls in [(None, 'null', p.Null), (True, 'bool', p.Boolean), (False, 'bool', p.Boolean), (300, 'unsigned', p.Unsigned),
@@ -1179,6 +1330,56 @@ def direct(rng, tier, focus=()):
         run(p.ObjectIdentifier, 'objid', '%s:%d' % (name, rng.randrange(2 ** 22)), [2], ot)
         run(p.ObjectIdentifier, 'objid', (num << 22) | rng.randrange(2 ** 22), [2], ot)
     samples.append({'direct': 'object identifiers', 'values': [repr(x) for x in objid_pool(rng, 2)[-4:]]})
+    # ---- special code points (BOM, non-characters, NUL, surrogate neighbours, combining marks, line ends) at every position:
+    # constructor path (charset 0), and decode of reference octets in charsets 0 / 3 / 4 (/ 5) into a live object
+    for t in special_texts():
+        run(p.CharacterString, 'chars', t, [rng.choice(CTX_QUICK)])
+        for cs in (0, 3, 4, 5):
+            if cs == 5 and any(ord(ch) > 255 for ch in t):
+                continue
+            f, done, k = history_direct(rng, p.CharacterString, 'chars', None, 0, script=[('new', 'x'), ('decode', t, rng.choice([None, 1, 15]), cs), ('copy',)])
+            n += k
+            if f:
+                failures.append(f)
+    # ---- every BitString subclass of the library and a user subclass: values shorter than, equal to and longer than bitLen
+    synthetic()
+    for cls in list(classes()['bits'].values()) + [VendorBits]:
+        for ln in range(0, cls.bitLen + 10):
+            for bits in ([0] * ln, [1] * ln, [rng.randrange(2) for _ in range(ln)]):
+                run(cls, 'bits', bits, [rng.choice(CTX_QUICK)])
+    # ---- sibling classes used interleaved in one process: each class's answer must not depend on what a sibling did before.
+    # two ObjectIdentifier classes with different objectTypeClass, type numbers they name differently, both orders
+    vt = enum_values(VendorObjectType, rng)[1]
+    st = enum_values(p.ObjectType, rng)[1]
+    VO, SO = VendorObjectIdentifier, p.ObjectIdentifier
+    scenario('objid: stock class first, then vendor class, type 128', [(SO, 'objid', (128, 1), st), (VO, 'objid', ('vendorMeter', 2), vt), (SO, 'objid', (128, 3), st)])
+    scenario('objid: vendor class first, then stock class, type 129', [(VO, 'objid', ('vendorPump', 4), vt), (SO, 'objid', (129, 5), st), (VO, 'objid', ('vendorPump', 6), vt)])
+    scenario('objid: interleaved over the vendor range', [(c, 'objid', v, tb) for num, name in [(640, 'vendorGateway'), (1023, 'vendorLast')]
+                                                         for c, v, tb in [(SO, (num, 7), st), (VO, (name, 8), vt), (VO, (num, 9), vt), (SO, (num, 10), st)]]
+             + [(VO, 'objid', ('device', 11), vt), (SO, 'objid', ('device', 12), st), (VO, 'objid', (130, 13), vt), (SO, 'objid', (130, 14), st)])
+    # a vendor extension of PropertyIdentifier next to its parent
+    import bacpypes.basetypes as _bt
+    vp = enum_values(VendorProperty, rng)[1]
+    pp = enum_values(_bt.PropertyIdentifier, rng)[1]
+    scenario('enum: parent then vendor subclass', [(_bt.PropertyIdentifier, 'enum', 512, pp), (VendorProperty, 'enum', 'vendorSetpoint', vp),
+                                                   (_bt.PropertyIdentifier, 'enum', 512, pp), (VendorProperty, 'enum', 'presentValue', vp),
+                                                   (_bt.PropertyIdentifier, 'enum', 'presentValue', pp), (VendorProperty, 'enum', 'vendorMode', vp),
+                                                   (_bt.PropertyIdentifier, 'enum', 4194303, pp)])
+    # neighbouring enumeration classes that give the same number different names
+    en = list(classes()['enum'].values())
+    for a, b in zip(en, en[1:] + en[:1]):
+        ta, tb = enum_values(a, rng)[1], enum_values(b, rng)[1]
+        common = sorted(set(ta.values()) & set(tb.values()))[:2]
+        inv_a = {v: k for k, v in ta.items()}
+        inv_b = {v: k for k, v in tb.items()}
+        for num in common:
+            scenario('enum: %s / %s number %d' % (a.__name__, b.__name__, num),
+                     [(a, 'enum', inv_a[num], ta), (b, 'enum', inv_b[num], tb), (a, 'enum', num, ta), (b, 'enum', num, tb)])
+    # ---- second pass: a slice of everything above once more, now that every class has been used in this process
+    for cls, kind, arg, tbl in calls[::max(1, len(calls) // (2500 if quick else 20000))]:
+        f = run(cls, kind, arg, [rng.choice(CTX_QUICK)], tbl, record=False)
+        if f:
+            f['second_pass'] = True
     # values named by correspondence disagreements
     for d in focus:
         try:
@@ -1193,6 +1394,9 @@ def direct(rng, tier, focus=()):
     # object life cycles: one object through construct / encode / decode-into / setters / copy, predicate after every step
     hf, hn, hnt = direct_histories(rng, tier)
     failures.extend(hf)
+    # the replay written per failure kind is the first one: put the self-contained ones first (a scenario / history carries the
+    # calls that led to it; a single value that fails only because of what the process did before does not reproduce alone)
+    failures.sort(key=lambda f: 0 if ('scenario' in f or 'history' in f) else 1)
     samples.append({'direct': 'object life cycles', 'histories_with_state_change': hnt, 'predicate_evaluations': hn})
     return failures, {'evaluations': n + hn, 'distinct_nontrivial': len(nontriv) + hnt, 'life_cycle_histories': hnt, 'exhaustive': False, 'samples': samples}
 
@@ -1599,13 +1803,33 @@ def replay(payload):
     if not f:
         print('replay: no failing input stored (unproved obligation):', payload.get('broken'))
         return
-    print('replay', {k: v for k, v in f.items() if k not in ('replay_arg', 'history')})
-    modname, clsname = f['class'].rsplit('.', 1)
-    cls = getattr(importlib.import_module(modname), clsname)
+    print('replay', {k: v for k, v in f.items() if k not in ('replay_arg', 'history', 'scenario')})
+    synthetic()
+
+    def find(name):
+        modname, clsname = name.rsplit('.', 1)
+        return getattr(importlib.import_module(modname), clsname)
+
+    def tbl_for(c, prim):
+        if prim == 'enum':
+            return enum_values(c, None)[1]
+        if prim == 'objid':
+            return enum_values(c.objectTypeClass, None)[1]
+        return None
+    if 'scenario' in f:
+        res = None
+        for st in f['scenario']:
+            c = find(st['class'])
+            arg = unreplay_arg(st['replay_arg'])
+            res, _ = check_value(c, st['prim'], arg, CTX_QUICK, tbl_for(c, st['prim']))
+            print('  step', st['class'], repr(arg)[:80], '->', 'ok' if res is None else res['kind'])
+        print('implementation:', 'property holds for this scenario' if res is None else res)
+        return
+    cls = find(f['class'])
     if 'history' in f:
         import random
         prim = f['prim']
-        tbl = enum_values(cls, None)[1] if prim == 'enum' else (enum_values(P().ObjectType, None)[1] if prim == 'objid' else None)
+        tbl = tbl_for(cls, prim)
         script = [unreplay_step(st) for st in f['history']]
         for st in script:
             print('  step', st)
@@ -1614,6 +1838,6 @@ def replay(payload):
         return
     arg = unreplay_arg(f['replay_arg'])
     prim = f['prim']
-    tbl = enum_values(cls, None)[1] if prim == 'enum' else (enum_values(P().ObjectType, None)[1] if prim == 'objid' else None)
+    tbl = tbl_for(cls, prim)
     res, _ = check_value(cls, prim, arg, list(range(255)), tbl)
     print('implementation:', 'property holds for this input' if res is None else res)
